@@ -21,7 +21,7 @@ PROPS_PRE = {
 }
 
 PROPS = dict(PROPS_PRE)
-for _pid, _scn in [('C09','C09'),('C08','C08'),('C14','C14'),('C05','C05'),('C06','C06'),('C07','C07'),('C10','C10'),('C11','C11'),('C12','C12'),('C15','C15')]:
+for _pid, _scn in [('C04','C04'),('C09','C09'),('C08','C08'),('C14','C14'),('C05','C05'),('C06','C06'),('C07','C07'),('C10','C10'),('C11','C11'),('C12','C12'),('C15','C15')]:
     PROPS[_pid] = dict(level='exploration', rule=NONTRIVIAL, assumptions=COMMON_ASSUMPTIONS,
                        legs=legs(_scn, 6000, 60, 400000, 1500), reports=[_pid])
 
